@@ -1,5 +1,5 @@
 """C14 - crystal collections stay consistent under any sequence of operations (model-based history monitor)."""
-from .. import histrun, common
+from .. import histrun, common, failrun
 
 OUTCOME = {0: 'accepted/ok', 1: 'rejected', 2: 'refused-or-contract-only'}
 
@@ -23,6 +23,13 @@ def main(tier):
     viol, ops, tot = histrun.merge(results)
     for key, v in viol.items():
         ck.violation(key, v['what'], dict(history_prefix=v['witness'], count=v['count']))
+    # allocation failpoints under a growing caller-owned collection: "a rejected addition leaves the collection as it was" also when the
+    # rejection is the library's own report of a failed growth (every library allocation of the scenario fails in turn, red zones behind every block)
+    fr = failrun.run('shipped')
+    failrun.report(ck, fr, 'C14')
+    for r in fr['viol']:
+        if r['prop'] == 'C04' and 'crystal array' in r.get('scenario', ''):
+            ck.violation(r['key'], r['what'], dict(scenario=r['scenario'], failing_library_allocation=r['k'], config='shipped'))
     crossed = ops.get(('history-crossed-capacity', 1), 0)
     if tot['steps'] < 5000 or crossed < 10 or not ops.get(('readfile-wellformed', 0)) or not ops.get(('add', 2)):
         raise common.Inconclusive('crystal histories observed too little: %r %r' % (tot, sorted(ops.items())))
@@ -35,6 +42,6 @@ def main(tier):
                samples=[dict(operation=k[0], outcome=OUTCOME.get(k[1], k[1]), count=v) for k, v in sorted(ops.items())][:24],
                histories=tot['histories'], model_comparisons=tot['checks'], histories_crossing_capacity=crossed,
                builtin_adds_refused_at_capacity=ops.get(('add', 2), 0), corrupt_files_rejected=ops.get(('readfile-corrupt', 0), 0),
-               duplicate_files_rejected=ops.get(('readfile-duplicate', 0), 0))
+               duplicate_files_rejected=ops.get(('readfile-duplicate', 0), 0), allocation_failpoints=fr['summary'])
     return ck.finish(cov, ['shadow model harness/histmon.c', 'generated files use the canonical layout of data/Crystals.dat (lines < 100 characters)',
                            'truncated files are held to the error-iff-failure contract only'])
